@@ -125,11 +125,24 @@ theorem flatMap_congr' {α β : Type} {f g : α → List β} {l : List α} (h : 
     simp only [List.flatMap_cons, h a (List.mem_cons_self ..)]
     rw [ih fun x hx => h x (List.mem_cons_of_mem _ hx)]
 
+theorem headLost_same {s s' : Store} {b : Nat} (h : BandSame s s' b) : headLost s' b = headLost s b := by
+  simp only [headLost, bandPresent_same h, h.hunk]
+
+theorem errorsBelow_same {s s' : Store} (hn : UniqueKeys s) (hn' : UniqueKeys s') (b : Nat) :
+    (∀ b', b' < b → BandSame s s' b') → errorsBelow s' b = errorsBelow s b := by
+  induction b with
+  | zero => intro _; rfl
+  | succ b ih =>
+    intro h
+    have hb := h b (Nat.lt_succ_self b)
+    simp only [errorsBelow, bandPresent_same hb, bandErrors_same hn hn' hb, isComplete_same hb,
+      headLost_same hb, ih (fun b' hb' => h b' (Nat.lt_succ_of_lt hb'))]
+
 theorem listErrors_same {s s' : Store} (hn : UniqueKeys s) (hn' : UniqueKeys s') (n : Nat)
     (h : ∀ b', b' ≤ n → BandSame s s' b') : listErrors s' n = listErrors s n := by
-  unfold listErrors
-  rw [chain_same n h]
-  exact flatMap_congr' fun c hc => bandErrors_same hn hn' (h c (mem_chain_le hc))
+  have hb := h n (Nat.le_refl n)
+  simp only [listErrors, bandErrors_same hn hn' hb, isComplete_same hb,
+    errorsBelow_same hn hn' n (fun b' hb' => h b' (Nat.le_of_lt hb'))]
 
 /-- Every member of the chain below `b` has a head file. -/
 theorem chainBelow_present {s : Store} (b : Nat) : ∀ c ∈ chainBelow s b, bandPresent s c = true := by
